@@ -73,6 +73,17 @@ CLAIMED = {
     note="Unique ids, intact internal dependencies and fresh names for clashing temporaries come from the assumed contract A-FUSE (external pymbolic code). Non-interference at run time is argued through C02/L-PERM and sampled by the bounded stand-in (fused vs separate runs).",
     technique="contract-based deductive verification: ast->z3 VC generation along MRO chains with an uninterpreted mapper; assumed contract on the external fusion routine",
     ref="6/C16"),
+
+ "C09": dict(cat="other",
+    text="MIXED. Proved deductively: every KindInferenceMapper.map_* returns a SymbolKind, never None, on every normal exit (induction hypothesis on rec; unify / registry by their contracts). NOT proved: that every assigned variable receives a table entry (SymbolKindFinder.__call__ is outside the contracts; D23 shows the clause is false for subscript-only assignments) and value-vs-kind agreement: those are decided only by the bounded stand-in (built-ins on a value catalogue; random builder programs executed on the real interpreter with a kind monitor).",
+    note="Category other: the property relates static kinds to numpy run-time values (floating point, numpy result types), which no contract on the inference functions can state. Known disagreements D5, D12, D13, D23, D37, D38, D39 are listed by fingerprint.",
+    technique="contract-based deductive verification of the inference mapper's methods + bounded run-time kind monitor",
+    ref="6/C09"),
+ "C19": dict(cat="exploration",
+    text="Bounded contract check only (as planned in DESIGN.md): the round-trip contract parse(str(e)) prints identically / mentions the same variables / has the same value is evaluated on all expressions to depth 2-3 over the property's operator set and a random tail, with exact rational arithmetic. One dagrt function that carries the backtick clause (parse.remove_backticks) is under deductive contract with z3 strings; it is not counted as deciding the property.",
+    note="parse and str are pymbolic's table-driven parser and stringifier: no function within reach has a contract implying the round trip. Known printer/parser defects D18, D33-D36 listed by fingerprint.",
+    technique="bounded contract check (exploration); one helper under contract-based deductive verification",
+    ref="6/C19"),
 }
 
 NOT_APPLICABLE = {
